@@ -491,4 +491,58 @@ theorem tileThenHistory_labelmap {α} [BEq α] [LawfulBEq α] (z : α) (L : Img 
       congr 1 <;> omega
 
 
+/-! ## Table locks: with the cursor closed on exit the lock-free machine is the whole story -/
+
+theorem tempOpL_unlocked (op : Nat × Bool) (data : ChanTable) (st : TempState) : tempOpL false op data st = tempOp op data st := by
+  simp [tempOpL]
+
+theorem runOpsL_unlocked : ∀ (ops : List (Nat × Bool)) (data : ChanTable) (st : TempState), runOpsL false ops data st = runOps ops data st := by
+  intro ops
+  induction ops with
+  | nil => intro data st; rfl
+  | cons op ops ih =>
+    intro data st
+    simp only [runOpsL, runOps, tempOpL_unlocked]
+    cases tempOp op data st with
+    | mk st' e =>
+      cases e with
+      | none => exact ih data st'
+      | some e => rfl
+
+/-- if the iterator closes the cursor of its frame query on every exit, a read on an unlocked connection is the read of the lock-free
+machine and leaves the connection unlocked — whether the caller keeps exceptions or not -/
+theorem stepReadL_closed {α} (z : α) (lut : List LutRow) (frames : List (Img α)) (rows cols th tw : Int) (full am kept : Bool)
+    (q : ChanRead) (st : TempState) :
+    stepReadL z lut frames rows cols th tw full am true kept q ⟨st, false⟩ =
+      (⟨(stepRead z lut frames rows cols th tw full am q st).1, false⟩, (stepRead z lut frames rows cols th tw full am q st).2) := by
+  unfold stepReadL stepRead
+  simp only [runOpsL_unlocked, Bool.not_true, Bool.and_false, Bool.false_and]
+  by_cases hl : q.labelmap = true
+  · simp only [hl, if_true]
+  · simp only [hl, Bool.false_eq_true, if_false]
+    split
+    · rfl
+    · split
+      · rfl
+      · split
+        · rfl
+        · split
+          · rfl
+          · split
+            · rfl
+            · split <;> rfl
+
+theorem runHistoryL_closed {α} (z : α) (lut : List LutRow) (frames : List (Img α)) (rows cols th tw : Int) (full am kept : Bool) :
+    ∀ (steps : List ChanRead) (st : TempState),
+    (runHistoryL z lut frames rows cols th tw full am true kept steps ⟨st, false⟩).1 =
+      (runHistory z lut frames rows cols th tw full am steps st).1 := by
+  intro steps
+  induction steps with
+  | nil => intro st; rfl
+  | cons q qs ih =>
+    intro st
+    simp only [runHistoryL, runHistory, stepReadL_closed]
+    rw [ih]
+
+
 end HdVerif.TilingLemmas
